@@ -231,6 +231,17 @@ func F2(thorough bool) []*Program {
 				fn("NewT0", []string{"*T1", "*T2"}, []string{"*T0"}, false),
 			}}}})
 	}
+	// Struct expansion whose fields are consumed in other goroutines; the struct's provider may fail
+	for _, e := range []bool{false, true} {
+		add(&Program{Desc: fmt.Sprintf("struct-across-goroutines err=%v", e), Types: typeNames(5), Structs: map[string][]string{"S0": {"F0 *T1", "F1 *T2"}}, Decls: []Decl{{
+			Name: "InitP", Request: "*T0", Provs: []Prov{
+				fn("NewS0", nil, []string{"*S0"}, e),
+				{Kind: KStruct, Struct: "*S0", Fields: []string{"F0", "F1"}, FTypes: []string{"*T1", "*T2"}},
+				fn("NewT3", []string{"*T1"}, []string{"*T3"}, false),
+				fn("NewT4", []string{"*T2"}, []string{"*T4"}, e),
+				fn("NewT0", []string{"*T3", "*T4"}, []string{"*T0"}, false),
+			}}}})
+	}
 	// Struct by value with one field consumed by an intermediate provider
 	add(&Program{Desc: "struct-value", Types: typeNames(3), Structs: map[string][]string{"S0": {"F0 *T1"}}, Decls: []Decl{{
 		Name: "InitP", Request: "*T0", Provs: []Prov{
@@ -314,7 +325,7 @@ func F2(thorough bool) []*Program {
 	for _, b := range bases {
 		max := 0
 		if !thorough {
-			max = 8
+			max = 16
 		}
 		out = append(out, asyncVariants(b, max)...)
 	}
